@@ -165,10 +165,10 @@ Proof. exact DFaultHist.ex_retried. Qed.
 Print Assumptions c07_retry_nonvacuous.
 
 (* ---------------------------------------------------------------------------------------------- *)
-(* REGENERATED FROM THE SOURCE ON EVERY RUN (tools/gen -> Generated.g_code; Decisions.v): the decisions the model
+(* REGENERATED FROM THE SOURCE ON EVERY RUN (tools/gen -> Generated.g_code; DecBase.v, Dec*.v): the decisions the model
    takes at these points are the evaluations of the conditions the Go source has there, for all values of their
    variables. *)
-From GK Require Import GExpr Generated Decisions.
+From GK Require Import GExpr Generated DecBase DecWrite DecPublish.
 From Coq Require Import String.
 
 (* Flush writes only what is not yet persisted (Disk.write_items / write_nodes skip persisted nodes and items) *)
@@ -177,19 +177,19 @@ Theorem c07_write_skips_persisted_is_source :
     forall isnil persisted : bool,
       let rho := upd (upd env0 "nloc" (b2z (negb isnil))) "nloc.Loc().isEmpty()" (b2z (negb persisted)) in
       gtrue rho c1 = Some (isnil || persisted) /\ gtrue rho c2 = Some (isnil || persisted).
-Proof. exact Decisions.write_skips_persisted. Qed.
+Proof. exact DecWrite.write_skips_persisted. Qed.
 Print Assumptions c07_write_skips_persisted_is_source.
 
 Theorem c07_item_written_once_is_source :
   exists c, hd_error (conds 400 (body "itemLoc.write")) = Some c /\
     forall empty : bool, gtrue (upd env0 "iloc.Loc().isEmpty()" (b2z empty)) c = Some empty.
-Proof. exact Decisions.item_written_once. Qed.
+Proof. exact DecWrite.item_written_once. Qed.
 Print Assumptions c07_item_written_once_is_source.
 
 Theorem c07_node_written_once_is_source :
   exists c, hd_error (conds 400 (body "nodeLoc.write")) = Some c /\
     forall notnil empty : bool, gtrue (upd (upd env0 "nloc" (b2z notnil)) "loc.isEmpty()" (b2z empty)) c = Some (notnil && empty).
-Proof. exact Decisions.node_written_once. Qed.
+Proof. exact DecWrite.node_written_once. Qed.
 Print Assumptions c07_node_written_once_is_source.
 
 (* ---------------------------------------------------------------------------------------------- *)
@@ -295,7 +295,7 @@ Theorem c07_item_write_order_is_source :
   before "atomic.StoreInt64" "iloc.setLoc" l = true /\
   before "iItem.NumValBytes" "c.store.file.WriteAt" l = true /\
   before "c.store.callbacks.BeforeItemWrite" "iItem.NumValBytes" l = true.
-Proof. exact Decisions.item_write_order. Qed.
+Proof. exact DecWrite.item_write_order. Qed.
 Print Assumptions c07_item_write_order_is_source.
 
 Theorem c07_node_write_order_is_source :
@@ -303,7 +303,7 @@ Theorem c07_node_write_order_is_source :
   before "o.getSize" "o.file.WriteAt" l = true /\
   before "o.file.WriteAt" "o.setSize" l = true /\
   before "o.setSize" "nloc.setLoc" l = true.
-Proof. exact Decisions.node_write_order. Qed.
+Proof. exact DecWrite.node_write_order. Qed.
 Print Assumptions c07_node_write_order_is_source.
 
 Theorem c07_mutation_publish_order_is_source :
@@ -316,5 +316,5 @@ Theorem c07_mutation_publish_order_is_source :
   count_occ string_dec (call_list "Collection.Delete") "t.unmarkReclaimable" = 2%nat /\
   count_occ string_dec (call_list "Collection.SetItem") "t.rootCAS" = 1%nat /\
   count_occ string_dec (call_list "Collection.Delete") "t.rootCAS" = 1%nat.
-Proof. exact Decisions.mutation_publish_order. Qed.
+Proof. exact DecPublish.mutation_publish_order. Qed.
 Print Assumptions c07_mutation_publish_order_is_source.
